@@ -851,13 +851,17 @@ func (vfs *MemFS) removeAll(parent *dirNode) error {
 		return vfs.err.PermDenied
 	}
 
-	for _, child := range parent.children {
+	for name, child := range parent.children {
 		if c, ok := child.(*dirNode); ok {
 			err := vfs.removeAll(c)
 			if err != nil {
 				return err
 			}
 		}
+
+		// The entry goes with the node : when a later step is refused,
+		// what was removed so far must not remain reachable with a decremented link count.
+		parent.removeChild(name)
 
 		child.Lock()
 		child.delete()
